@@ -123,7 +123,7 @@ func VH_C18_request(op, which, kind, uriForm int) {
 		ps = []param{{"location", vhStr, true, "loc"}, {"id", vhStr, true, "f0"}}
 	case 3:
 		path = "facts/search"
-		ps = []param{{"location", vhStr, true, "loc"}, {"pattern", vhMap, true, pattern}, {"inherited", vhBool, false, false}}
+		ps = []param{{"location", vhStr, true, "loc"}, {"pattern", vhMap, true, pattern}, {"inherited", vhBool, false, false}, {"take", vhBool, false, false}}
 	case 4:
 		path = "rules/rem"
 		ps = []param{{"location", vhStr, true, "loc"}, {"id", vhStr, true, "r0"}}
@@ -213,6 +213,17 @@ func VH_C18_request(op, which, kind, uriForm int) {
 		_, derr = sb.GetFact(cb, str(ps[0].val), str(ps[1].val))
 	case 3:
 		_, derr = sb.SearchFacts(cb, str(ps[0].val), `{"a":"?x"}`, false)
+		take := false
+		switch tv := ps[3].val.(type) {
+		case bool:
+			take = tv
+		case string:
+			take = tv == "true" || tv == "True"
+		}
+		if take && derr == nil {
+			// search with take=true also removes what it found (f0 is the one matching fact)
+			sb.RemFact(cb, str(ps[0].val), "f0")
+		}
 	case 4:
 		_, derr = sb.RemRule(cb, str(ps[0].val), str(ps[1].val))
 	case 5:
